@@ -244,6 +244,7 @@ func GoldenCheck(rec *Rec, golden, scratch string, seed int64) (int, error) {
 			cfg.Strict = true
 			p := &Program{ID: "golden-" + meta.Name + "-" + fsname, Cfg: cfg, Ops: []Op{}}
 			r := NewRunnerOn(rec, p, dir, RunParams{Mode: "seq", Seed: seed, Probe: true, FullEvery: 20})
+			r.S.NoListing = true
 			for _, k := range meta.Universe {
 				r.S.use([]byte(k))
 			}
